@@ -102,12 +102,15 @@ type cwWorld struct {
 	wrapped       []common.Address   // Quai beneficiaries of wrapping transactions made so far
 	emitted       types.Transactions // coinbase ETXs emitted by the zone since the last region block
 	hist          map[string]int
-	spentInPool   map[string]bool           // outpoints the generator already used in a submitted Qi transaction
-	plan          *cwPlan                   // a contract deployment onto an address that was funded beforehand
-	hunt          bool                      // time spends of small unlocked outputs to the block that trims them
-	busy          bool                      // more region blocks, and every one of them delivers a burst of lockup coinbases
-	adversarialQi bool                      // some Qi transactions handed to the pool are invalid in ways only block assembly can notice
-	convertQi     bool                      // some Qi spends are Qi -> Quai conversions
+	spentInPool   map[string]bool // outpoints the generator already used in a submitted Qi transaction
+	plan          *cwPlan         // a contract deployment onto an address that was funded beforehand
+	hunt          bool            // time spends of small unlocked outputs to the block that trims them
+	busy          bool            // more region blocks, and every one of them delivers a burst of lockup coinbases
+	adversarialQi bool            // some Qi transactions handed to the pool are invalid in ways only block assembly can notice
+	convertQi     bool            // some Qi spends are Qi -> Quai conversions
+	bigLogs       bool            // deploy and call a contract whose receipt carries a 110000-byte log (a block whose write batch passes the 100 KiB mark)
+	biglog        *common.Address
+	quiet         bool                      // the next block: no user activity, zone order, Quai coinbase (whatever the block does to the Qi ledger, it does unasked: trimming)
 	forceRegion   int                       // when it counts down to zero the block being built is of region order
 	qiBoost       int                       // extra Qi spends per round
 	born          map[types.OutPoint]uint64 // creation height of outputs made on this chain
@@ -180,6 +183,18 @@ func cwWatch() (out []common.Address, allocs []params.GenesisAccount) {
 		allocs = append(allocs, params.GenesisAccount{Address: addr, Award: big.NewInt(1), Vested: big.NewInt(1), BalanceSchedule: sched})
 	}
 	return
+}
+
+// cwRefundAddr: a Quai address of zone 0-0 that only ever receives refunds of reverted Quai->Qi conversions
+func cwRefundAddr() common.Address {
+	for i := 0; ; i++ {
+		b := crypto.Keccak256([]byte("qvh-refund"), big.NewInt(int64(i)).Bytes())[:20]
+		b[0] = 0
+		addr := common.BytesToAddress(b, common.Location{0, 0})
+		if _, err := addr.InternalAndQuaiAddress(); err == nil {
+			return addr
+		}
+	}
 }
 
 // cwFresh: Quai addresses of zone 0-0 that do not exist at genesis and never transact: the first payout they can afford
@@ -357,7 +372,7 @@ func (w *cwWorld) synthInbound(blkNum uint64) types.Transactions {
 	}
 	for i := 0; i < n; i++ {
 		lock := byte(rc.Intn(4))
-		kind := []int{0, 0, 1, 2, 3, 4, 5, 5, 6, 7, 8, 8}[rc.Intn(12)] // Quai coinbases, Qi->Quai conversions and plain Qi outputs a little more often
+		kind := []int{0, 0, 1, 2, 3, 4, 5, 5, 6, 6, 7, 8, 8}[rc.Intn(13)] // Quai coinbases, Qi->Quai conversions and plain Qi outputs a little more often
 		if w.rg.preTx || blkNum < params.TimeToStartTx {
 			// blocks of the early chain have gas limit 0: only coinbase ETXs (which draw no gas) can exist there
 			kind = rc.Intn(3)
@@ -377,9 +392,24 @@ func (w *cwWorld) synthInbound(blkNum uint64) types.Transactions {
 			to, from := w.convAddr(), w.randQiAddr()
 			add("conv-to-quai", &types.ExternalTx{OriginatingTxHash: w.etxHash(), ETXIndex: uint16(i), Gas: params.TxGas * 2, To: &to, Value: big.NewInt(1e14 + int64(rc.Intn(1e9))), Sender: from, EtxType: types.ConversionType})
 		case 6: // reverted conversion: refunds
-			if rc.Bool() {
+			if rc.Chance(65) {
 				to, from := w.randQiAddr(), w.randQuaiAddr()
-				add("revert-quai", &types.ExternalTx{OriginatingTxHash: w.etxHash(), ETXIndex: uint16(i), Gas: params.TxGas * 2, To: &to, Value: big.NewInt(1e14), Sender: from, EtxType: types.ConversionRevertType})
+				var data []byte
+				if rc.Chance(70) {
+					// the refund-only account (it never transacts: its balance is the sum of the refunds), and the data the
+					// reverted conversion carried: the slip, possibly followed by anything the sender cared to add
+					from = cwRefundAddr()
+					data = rc.Bytes([]int{0, 2, 2, 21, 22, 22, 23, 40}[rc.Intn(8)])
+					if len(data) >= 22 {
+						data[2] = 0x00 // bytes 2..21 read as an address of this zone, in either ledger
+						if rc.Bool() {
+							data[3] |= 0x80
+						} else {
+							data[3] &= 0x7f
+						}
+					}
+				}
+				add("revert-quai", &types.ExternalTx{OriginatingTxHash: w.etxHash(), ETXIndex: uint16(i), Gas: params.TxGas * 2, To: &to, Value: big.NewInt(1e14 + int64(rc.Intn(1e6))), Data: data, Sender: from, EtxType: types.ConversionRevertType})
 			} else {
 				to, from := w.randQuaiAddr(), w.randQiAddr()
 				data := append([]byte{0, 0}, from.Bytes()...)
@@ -587,6 +617,17 @@ func (w *cwWorld) userActivity() {
 			w.plan = &cwPlan{deployer: d, addr: addr, code: code, ready: headNum + 1 + uint64(rc.Intn(3))}
 			txs.add(w.signQuai(a, &addr, big.NewInt(int64(1+rc.Intn(1e6))), nil, 100000)) // a transfer that creates the account costs more than TxGas
 			w.count("tx:prefund")
+			continue
+		}
+		if w.bigLogs && w.biglog == nil && headNum >= 3 {
+			code, addr := grindCreate(a.addr, a.nonce, initCodeFor((&asm{}).pushN(110000).pushN(0).op(vm.LOG0).op(vm.STOP).b), w.node.loc)
+			txs.add(w.signQuai(a, nil, big.NewInt(0), code, 3000000, types.AccessTuple{Address: addr}))
+			w.biglog = &addr
+			w.count("tx:deploy-biglog")
+			continue
+		} else if w.bigLogs && w.biglog != nil && rc.Chance(40) {
+			txs.add(w.signQuai(a, w.biglog, big.NewInt(0), nil, 1_500_000, types.AccessTuple{Address: *w.biglog}))
+			w.count("tx:biglog")
 			continue
 		}
 		switch k := rc.Intn(10); {
@@ -932,7 +973,9 @@ func (w *cwWorld) step() (*cwStep, error) {
 // is appended yet
 func (w *cwWorld) build() (*cwStep, error) {
 	rc := w.rc
-	w.userActivity()
+	if !w.quiet {
+		w.userActivity()
+	}
 	n := w.node
 	n.nextDt = uint64(rc.Intn(4))
 	if rc.Chance(10) {
@@ -972,6 +1015,10 @@ func (w *cwWorld) build() (*cwStep, error) {
 		}
 	}
 	n.wantShare = rc.Chance(30)
+	if w.quiet {
+		want, n.wantShare, w.quiet = common.ZONE_CTX, false, false
+		n.nextCoinbase = w.randQuaiAddr()
+	}
 	blk, err := n.nextBlock(want)
 	if err != nil {
 		return nil, err
